@@ -1,10 +1,7 @@
 (* C15 Package type names map one-to-one, case-insensitively *)
 Load "coq/props/Hdr".
 From PM Require Import C15 Assemble.
-Lemma src_rt : rt_ok cfg. Proof. apply conds_rt_ok. vm_compute. reflexivity. Qed.
-Lemma src_tbl : tbl_ok cfg. Proof. apply conds_tbl_ok. vm_compute. reflexivity. Qed.
-Lemma src_cfg_ok : cfg_ok cfg. Proof. exact (rt_cfg _ src_rt). Qed.
-Ltac sc := sidecond_with src_rt src_tbl.
+Lemma src_cfg_ok : cfg_ok cfg. Proof. sc. Qed.
 Theorem C15_any_case_parses : forall s t, make_ascii_lowercase s = pt_name t -> pt_from_str cfg s = Some t.
 Proof. apply C15_complete. Qed.
 Print Assumptions C15_any_case_parses.
